@@ -10,8 +10,8 @@ RULE = ('candidate header lines are placed as the 2nd line after a valid '
         'verdict (accepted with which options / rejected with '
         'DiffXParseError on that line / anything else) is compared with a '
         'hand-written recogniser of the spec grammar. Enumerated: (1) '
-        '"#.change:" + every tail over the 15-symbol alphabet '
-        '{a Z 7 _ - . / = , space tab # : + 0xFF} up to length L; (2) every '
+        '"#.change:" + every tail over the 16-symbol alphabet '
+        '{a Z 7 _ - . / = , space tab # : + 0xFF %} up to length L; (2) every '
         'head over {# . : space change Change x} up to 6 symbols; (3) every '
         'option list of 1-3 pairs built from token sets for key / "=" / '
         'value / separator; (4) long valid option lists with one byte '
@@ -31,19 +31,20 @@ ASSUMPTIONS = [
 ]
 
 ALPHABET = [b'a', b'Z', b'7', b'_', b'-', b'.', b'/', b'=', b',', b' ',
-            b'\t', b'#', b':', b'+', b'\xff']
+            b'\t', b'#', b':', b'+', b'\xff', b'%']
 HEAD_SYMS = [b'#', b'.', b':', b' ', b'change', b'Change', b'x']
 
 KEYS = [b'a', b'Z9', b'a-b_c', b'7a', b'_a', b'-a', b'a+b', b'a.b', b'',
-        b'a b', b'length', b'a\xff']
+        b'a b', b'length', b'a\xff', b'%s', b'a%d', b'%(k)s']
 EQS = [b'=', b' =', b'= ', b'==', b'']
 VALUES = [b'v', b'7', b'-7', b'7_7', b'text/plain', b'a.b_c-d/e', b'a+b',
-          b'a=b', b'', b'a b', b'a:', b'1.0', b'0x10', b'v\xff', b'007']
+          b'a=b', b'', b'a b', b'a:', b'1.0', b'0x10', b'v\xff', b'007',
+          b'%', b'%s', b'%d', b'100%', b'%(value)s', b'%%']
 SEPS = [b', ', b',', b' , ', b',  ', b' ', b'; ']
 
 
-def check_line(line, obs, file_nl=b'\n', follow=b''):
-    data = b'#diffx: version=1.0' + file_nl + line + file_nl + follow
+def check_line(line, obs, file_nl=b'\n', follow=b'', lead=b''):
+    data = lead + b'#diffx: version=1.0' + file_nl + line + file_nl + follow
     if line.strip() == b'':
         obs.count('tolerance:blank_line')
         return
@@ -53,9 +54,10 @@ def check_line(line, obs, file_nl=b'\n', follow=b''):
         # what a (possibly unknown) codec does to later sections is C08's
         # business, not the header grammar's
         follow = b''
-        data = b'#diffx: version=1.0' + file_nl + line + file_nl
+        data = lead + b'#diffx: version=1.0' + file_nl + line + file_nl
     recs, exc, _ = common.read_records(data)
-    case = {'line': line, 'file_newline': file_nl, 'follow': follow}
+    case = {'line': line, 'file_newline': file_nl, 'follow': follow,
+            'lead': lead}
     if accept and exc is not None and \
             type(exc).__name__ == 'DiffXParseError' and exc.linenum == 1 \
             and semantically_invalid(parsed[3]):
@@ -240,6 +242,16 @@ def run(ctx):
                 check_line(line[:-1] + b'+', obs, nl)
                 n += 3
                 obs.count('enum:block_boundary')
+    # blank separator lines in front of the main header, terminated like
+    # the headers or the other way round: they are whitespace, not headers
+    if ctx.index == 2 % ctx.n:
+        for lead in (b'\n', b'\r\n', b'\n\n', b'\r\n\n', b' \n', b'\t\r\n'):
+            for nl in (b'\n', b'\r\n'):
+                for line in (b'#.change: a=b', b'#.change:', b'#.change: a=b+',
+                             b'#.change'):
+                    check_line(line, obs, nl, lead=lead)
+                    n += 1
+                    obs.count('enum:leading_blank')
     # CR variants
     if ctx.index == 0:
         for line in (b'#.change: a=b', b'#.change:', b'#.change: a=b\r',
@@ -259,4 +271,4 @@ def run(ctx):
 def replay(case, obs):
     obs.case(None, nontrivial=False)
     check_line(case['line'], obs, case.get('file_newline', b'\n'),
-               case.get('follow', b''))
+               case.get('follow', b''), case.get('lead', b''))
